@@ -1,5 +1,6 @@
 import GffProofs.Props.C11
 import GffProofs.Props.C11Sql
+import GffProofs.Props.C11Sql2
 open GffProofs.C11
 #print axioms query_perm_filter
 #print axioms query_unordered_in_input_order
@@ -33,3 +34,15 @@ open GffProofs.C11
 #print axioms GffProofs.C11Sql.eval_featuretypes
 #print axioms GffProofs.C11Sql.eval_seqids
 #print axioms GffProofs.C11Sql.toQuery_defined
+#print axioms GffProofs.C11Sql.regionExecutable_iff
+#print axioms GffProofs.C11Sql.eval_region_rows
+#print axioms GffProofs.C11Sql.eval_region_eq_regionPy
+#print axioms GffProofs.C11Sql.eval_regionText_eq_regionPy
+#print axioms GffProofs.C11Sql.render_is_select
+#print axioms GffProofs.C11Sql.makeQuery_is_select
+#print axioms GffProofs.C11Sql.makeQuery_semi_iff
+#print axioms GffProofs.C11Sql.makeQuery_callers_select
+#print axioms GffProofs.C11Sql.relationText_is_select
+#print axioms GffProofs.C11Sql.regionText_is_select
+#print axioms GffProofs.C11Sql.count_distinct_is_select
+#print axioms GffProofs.C11Sql.reads_are_selects
